@@ -140,13 +140,20 @@ type billRun struct {
 	CalcErr error
 	RefErr  error
 	Panic   any
+	PanicAt string // innermost gobl function on the panicking stack
 }
 
 // runBill calculates docJSON with the real library and with the reference.
 func runBill(docJSON []byte, extra int) *billRun {
 	r := &billRun{In: docJSON}
 	w := getWorld()
-	r.Panic, _ = Safely(func() {
+	var stack string
+	defer func() {
+		if r.Panic != nil {
+			r.PanicAt = panicSite(stack)
+		}
+	}()
+	r.Panic, stack = Safely(func() {
 		env, err := gx.EnvelopDoc(docJSON)
 		if err != nil {
 			r.CalcErr = err
